@@ -3511,11 +3511,19 @@ class NetCDFWrite(IOWrite):
                 if (
                     axis not in data_axes
                     and spanning_constructs
-                    and spanning_constructs != spanning_auxiliary_coordinates
+                    and (
+                        spanning_constructs != spanning_auxiliary_coordinates
+                        or any(
+                            self.implementation.is_geometry(aux)
+                            for aux in spanning_auxiliary_coordinates.values()
+                        )
+                    )
                 ):
                     # The data array doesn't span the domain axis but
                     # a cell measure, domain ancillary, field
-                    # ancillary, or an N-d (N>1) auxiliary coordinate
+                    # ancillary, an N-d (N>1) auxiliary coordinate, or
+                    # a geometry auxiliary coordinate (whose node
+                    # count variable needs the geometry dimension)
                     # does => expand the data array to include it.
                     if field:
                         f = self.implementation.field_insert_dimension(
